@@ -62,6 +62,8 @@ def ledger(tier, seed):
     # behaviours of the coin-registry menu of the ledger model (tokens: create, recreate, owner change, mint, burn)
     tokens = [dict(s, id="TK" + s["id"]) for s in vlib.tlc_generate("MCLedger", "gen/MCLedgerGen_tokens.cfg", "W1u", "ledger")]
     scs += sample(rnd, tokens, {"quick": 150, "thorough": 3000}[tier])
+    again = [dict(s, id="RC" + s["id"]) for s in vlib.tlc_generate("MCLedger", "gen/MCLedgerGen_recreate.cfg", "W1u", "ledger")]
+    scs += sample(rnd, again, {"quick": 60, "thorough": 2000}[tier])        # one ticker recreated up to four times
     return scs + regress("ledger")
 
 
